@@ -66,6 +66,35 @@ def adjacent_chain_ok(cg, pos, mask):
     return seen == vis
 
 
+def search_failing(ctx, name, cg, pos):
+    """the model and the code disagree on this board: search it (and its one-cell variants) for an input on which the PROPERTY fails --
+    every invisible cell flipped (non-interference), every visible opaque cell cleared (monotonicity), agent cell, chain"""
+    got = mask_of(name, cg, pos)
+    if got[0] != 'ok':
+        return
+    h, w = gen.shape_of(cg)
+    case = {'visibility': name, 'view': gen.show_state((cg, pos, 0, gen.NONE))['grid'], 'agent': pos, 'grid': cg, 'found_by': 'search after a correspondence failure'}
+    vis = set(got[1])
+    if tuple(pos) not in vis:
+        ctx.violation(f"{name}: the agent's own cell is not visible", case)
+    if not adjacent_chain_ok(cg, pos, got[1]):
+        ctx.violation(f'{name}: a visible cell has no chain of adjacent transparent visible cells to the agent', case)
+    for y in range(h):
+        for x in range(w):
+            if (y, x) not in vis:
+                for repl in (WALL, FLOOR):
+                    if repl != cg[y][x]:
+                        got2 = mask_of(name, gen.set_cell(cg, (y, x), repl), pos)
+                        if got2 != got:
+                            ctx.violation(f'{name}: changing the invisible cell {(y, x)} changed which cells are visible', dict(case, cell=(y, x)))
+                            return
+            elif cg[y][x] == WALL:
+                got2 = mask_of(name, gen.set_cell(cg, (y, x), FLOOR), pos)
+                if got2[0] == 'ok' and not vis <= set(got2[1]):
+                    ctx.violation(f'{name}: making the visible opaque cell {(y, x)} transparent hid {sorted(vis - set(got2[1]))}', dict(case, cell=(y, x)))
+                    return
+
+
 def run(ctx):
     r = ctx.rng
     ctx.rule = ('(a) ALL opacity patterns of every view up to 3x3 and 2x4 (thorough: up to 3x5, 4x3, 4x4) with the agent on the bottom row: masks of '
@@ -108,6 +137,7 @@ def run(ctx):
             R = wire.Reader(ans)
             kind, val, log = R.outcome(lambda: sorted(set(R.lst(R.pos))))
             if (kind, val) != (got[0], got[1] if got[0] != 'ok' else [tuple(p) for p in got[1]]):
+                search_failing(ctx, name, cg, pos)
                 ctx.disagreement('visibility mask: implementation and model differ',
                                  {'visibility': name, 'grid': cg, 'agent': pos, 'impl': got, 'model': [kind, val]})
     # (d) large views (hundreds of rays: counters must not saturate or wrap): agent visible, chain, model comparison
@@ -140,8 +170,50 @@ def run(ctx):
             R = wire.Reader(ans)
             kind, val, log = R.outcome(lambda: sorted(set(R.lst(R.pos))))
             if (kind, val) != (got[0], got[1] if got[0] != 'ok' else [tuple(p) for p in got[1]]):
+                search_failing(ctx, name, cg, pos)
                 ctx.disagreement('visibility mask (large view): implementation and model differ',
                                  {'visibility': name, 'shape': gen.shape_of(cg), 'agent': pos, 'grid': cg})
+    # (e) medium views (5x5 .. 7x7, the sizes the shipped configurations use) with random occluder layouts: model comparison, chain, and
+    #     non-interference at the level of the mask: flipping the opacity of a cell that is not visible leaves the mask unchanged
+    mreqs, mmetas = [], []
+    for _ in range(500 if ctx.tier == 'quick' else 5000):
+        h, w = r.choice([(5, 5), (7, 7), (6, 5), (5, 7), (7, 5), (4, 7), (6, 6)])
+        dens = r.choice([0.1, 0.2, 0.3, 0.45])
+        cg = tuple(tuple(WALL if r.random() < dens else FLOOR for _ in range(w)) for _ in range(h))
+        name = r.choice(['raytracing', 'partially_occluded'])
+        # partially_occluded is defined for an agent on the bottom row only (it raises NotImplementedError otherwise, as documented)
+        pos = (h - 1, w // 2) if r.random() < 0.7 else (h - 1 if name == 'partially_occluded' else r.randrange(h), r.randrange(w))
+        got = mask_of(name, cg, pos)
+        ctx.count('medium view ' + name, f'{h}x{w}')
+        ctx.case((name, cg, pos), got[0] == 'ok' and len(got[1]) < h * w, None)
+        case = {'visibility': name, 'view': gen.show_state((cg, pos, 0, gen.NONE))['grid'], 'agent': pos, 'grid': cg}
+        if got[0] != 'ok':
+            ctx.violation(f'{name} raised {got[1]}', case)
+            continue
+        if tuple(pos) not in got[1]:
+            ctx.violation(f"{name}: the agent's own cell is not visible", case)
+        if not adjacent_chain_ok(cg, pos, got[1]):
+            ctx.violation(f'{name}: a visible cell has no chain of adjacent transparent visible cells to the agent', case)
+        unseen = [(y, x) for y in range(h) for x in range(w) if (y, x) not in set(got[1])]
+        r.shuffle(unseen)
+        for q in unseen[:3]:
+            flipped = gen.set_cell(cg, q, FLOOR if cg[q[0]][q[1]] == WALL else WALL)
+            got2 = mask_of(name, flipped, pos)
+            ctx.count('mask-level replacement', name)
+            if got2 != got:
+                ctx.violation(f'{name}: changing the opacity of the invisible cell {q} changed which cells are visible '
+                              f'({sorted(set(got[1]) ^ set(got2[1] if got2[0] == "ok" else []))})', dict(case, cell=q))
+        mreqs.append(vis_request(name, cg, pos, []))
+        mmetas.append((name, cg, pos, got))
+    answers = ctx.model(mreqs)
+    if answers is not None:
+        for (name, cg, pos, got), ans in zip(mmetas, answers):
+            R = wire.Reader(ans)
+            kind, val, log = R.outcome(lambda: sorted(set(R.lst(R.pos))))
+            if (kind, val) != (got[0], got[1] if got[0] != 'ok' else [tuple(p) for p in got[1]]):
+                search_failing(ctx, name, cg, pos)
+                ctx.disagreement('visibility mask (medium view): implementation and model differ',
+                                 {'visibility': name, 'shape': gen.shape_of(cg), 'agent': pos, 'grid': cg, 'impl': got, 'model': [kind, val]})
     # (b) pair oracle on the observation functions
     n = 150 if ctx.tier == 'quick' else 1500
     ometas, oreqs = [], []
